@@ -22,12 +22,14 @@ ASSUMPTIONS = [
 ]
 META = dict(_sm.META_C01)
 META["text"] = META["text"] + (
-    " Added by composition with the reward (C14) and score (C03) models over explicit adapters: "
-    "C01_payouts_history_independent / C01_payouts_fresh_instance (calculator input and getPopPayout equal for equal "
-    "active chains), C01_candidate_validation_history_independent and C01_score_input_history_independent (a candidate "
-    "with the same chain and no cached failed mark validates alike and gets the same publication views and score), "
-    "C01_verdict_history_independent_partial (fork-case verdict equal up to the stand-alone re-validation of a winning "
-    "candidate) and C01_verdict_without_clean_premise_refuted (the listed cached-invalid finding reproduced on the model).")
+    " Added by composition with the reward (C14) and score (C03) models over explicit adapters (payout info, SP best "
+    "chain as a function of the reference counts, keystone interval, timestamps): C01_payouts_history_independent / "
+    "C01_payouts_fresh_instance (calculator input and getPopPayout equal for equal active chains), "
+    "C01_candidate_validation_history_independent, C01_score_input_history_independent, C01_revalidation_replay and "
+    "C01_verdict_history_independent / C01_verdict_fresh_instance (the comparePopScore verdict of the POP machine run with "
+    "the Score model's scorer is equal for equal active chains against a candidate with the same chain and no cached "
+    "failed mark), C01_verdict_without_clean_premise_refuted (the listed cached-invalid finding reproduced on the model); "
+    "finalization short-cuts and the real SP trees below the adapters remain covered by the twin oracle only.")
 
 
 def run(ctx):
